@@ -186,6 +186,11 @@ impl Allocator {
     }
 
     fn manage_state(gc: &mut BoaGc) {
+        #[cfg(boa_verif)]
+        if verif::stress_due() {
+            Collector::collect(gc);
+            return;
+        }
         if gc.runtime.bytes_allocated > gc.config.threshold {
             Collector::collect(gc);
 
@@ -553,4 +558,52 @@ pub fn has_weak_maps() -> bool {
 
         !gc.weak_maps.is_empty()
     })
+}
+
+/// Verification hooks (only with `--cfg boa_verif`): a collection stress schedule and heap statistics.
+#[cfg(boa_verif)]
+#[allow(missing_docs, clippy::must_use_candidate)]
+pub mod verif {
+    use super::BOA_GC;
+    use std::cell::Cell;
+
+    thread_local!(static STRESS_EVERY: Cell<usize> = const { Cell::new(0) });
+    thread_local!(static STRESS_COUNT: Cell<usize> = const { Cell::new(0) });
+
+    /// Force a full collection at every `every_n`-th allocation (0 switches the schedule off).
+    pub fn set_stress(every_n: usize) {
+        STRESS_EVERY.with(|c| c.set(every_n));
+        STRESS_COUNT.with(|c| c.set(0));
+    }
+
+    pub(super) fn stress_due() -> bool {
+        let n = STRESS_EVERY.with(Cell::get);
+        if n == 0 {
+            return false;
+        }
+        STRESS_COUNT.with(|c| {
+            let k = c.get() + 1;
+            if k >= n {
+                c.set(0);
+                true
+            } else {
+                c.set(k);
+                false
+            }
+        })
+    }
+
+    /// `(strong boxes, ephemeron boxes, weak maps, bytes allocated, collections run)`
+    pub fn stats() -> (usize, usize, usize, usize, usize) {
+        BOA_GC.with(|current| {
+            let gc = current.borrow();
+            (
+                gc.strongs.len(),
+                gc.weaks.len(),
+                gc.weak_maps.len(),
+                gc.runtime.bytes_allocated,
+                gc.runtime.collections,
+            )
+        })
+    }
 }
